@@ -21,7 +21,9 @@ import (
 func TestMain(m *testing.M) { vkit.Main(m) }
 
 func TestDeltaExact(t *testing.T) {
-	vkit.Check(t, vkit.GenCrdtCase, func(c vkit.CrdtCase) vkit.Result { return vkit.RunCrdtCase(c, vkit.CrdtChecks{State: true, Delta: true}) })
+	vkit.Check(t, vkit.GenCrdtCase, func(c vkit.CrdtCase) vkit.Result {
+		return vkit.RunCrdtCase(c, vkit.CrdtChecks{State: true, Delta: true})
+	})
 }
 
 // ---------------------------------------------------------------------------------------------
